@@ -91,6 +91,7 @@ type shardResult struct {
 	crashes []crash
 	harness []string
 	stopped string
+	notes   []string
 }
 
 // tail keeps the last n bytes written to it.
@@ -186,6 +187,21 @@ func runShard(lane laneSpec, job proto.Job, maxCrashes int) shardResult {
 		}
 		if strings.Contains(errTail.String(), "reader operation budget exceeded twice") {
 			kind = "reader-no-progress-loop"
+		}
+		if kind == "hang" {
+			// believed only if the case stalls again when it runs alone in a fresh worker (the simulator is
+			// deterministic: a real hang comes back, a stall of the machine does not)
+			jc := &judgeClient{lane: lane}
+			rs, died, _ := jc.do(&proto.Request{Op: "judge", Prop: job.Prop, Tier: job.Tier, Seed: job.Seed, Idx: lastB})
+			jc.close()
+			if died == "" && rs.Err == "" {
+				res.notes = append(res.notes, fmt.Sprintf("case %d (lane %s): a stall was not confirmed when the case ran alone; not a hang", lastB, lane.Name))
+				for _, f := range rs.Findings {
+					res.viols = append(res.viols, proto.Violation{Idx: lastB, Case: rs.Case, Finding: f, Obs: rs.Obs, Lane: lane.Name})
+				}
+				job.Start = lastB + 1
+				continue
+			}
 		}
 		if kind == "hang" || kind == "memory" {
 			slow++
@@ -744,6 +760,9 @@ func doCheck(prop, tier string, seed uint64, nworkers, maxSec int, noMin bool) i
 				if r.stopped != "" {
 					fmt.Println("note:", r.stopped)
 				}
+				for _, n := range r.notes {
+					fmt.Println("note:", n)
+				}
 				ls := laneStats[lane.Name]
 				if ls == nil {
 					ls = &proto.Stats{Probes: map[string]int{}, Faults: map[string]int{}, Policies: map[string]int{}}
@@ -1122,6 +1141,26 @@ func doReplay(path string) int {
 	if rp.Class == "data-race" || rp.Class == "result-differs-real-scheduler" {
 		procs := 2
 		fmt.Sscanf(rp.Lane, "race/GOMAXPROCS=%d", &procs)
+		if procs == 0 {
+			// a difference BETWEEN processes: the case (or the burst) again at GOMAXPROCS 1, 2 and 16
+			for _, pr := range []int{1, 2, 16} {
+				if _, _, h := runRaceProc(rp.Seed, rp.Idx+1, 0, 1, rp.Idx, pr, 1); h != "" {
+					fmt.Fprintln(os.Stderr, "HARNESS:", h)
+					return 2
+				}
+			}
+			seen := map[string]bool{}
+			for _, h := range raceRes.m[rp.Idx] {
+				seen[h] = true
+			}
+			if len(seen) > 1 {
+				fmt.Printf("replay: %d different results for the same arguments at GOMAXPROCS 1, 2, 16\n", len(seen))
+				fmt.Printf("VIOLATION property=%s replay=%s\n", rp.Property, path)
+				return 1
+			}
+			fmt.Println("replay: the same result at GOMAXPROCS 1, 2 and 16 this time (this lane is not deterministic)")
+			return 0
+		}
 		rs, _, h := runRaceProc(rp.Seed, rp.Idx+1, 0, 1, rp.Idx, procs, 50)
 		if h != "" {
 			fmt.Fprintln(os.Stderr, "HARNESS:", h)
@@ -1228,6 +1267,12 @@ type raceReport struct {
 
 var raceBin = envOr("VERIF_RACE_BIN", filepath.Join(root, ".build", "race.test"))
 
+// raceRes: per case index, the hash of the result each race-lane process (GOMAXPROCS value) obtained.
+var raceRes = struct {
+	sync.Mutex
+	m map[int]map[int]string
+}{m: map[int]map[int]string{}}
+
 func runRaceProc(seed uint64, n, shard, nsh, only, procs, count int) (reports []raceReport, cases int, harness string) {
 	job := fmt.Sprintf(`{"seed":%d,"n":%d,"shard":%d,"nshards":%d,"only":%d}`, seed, n, shard, nsh, only)
 	cmd := exec.Command(raceBin, "-test.run", "^TestRaceLane$", "-test.timeout", "0", "-test.count", strconv.Itoa(count))
@@ -1255,6 +1300,22 @@ func runRaceProc(seed uint64, n, shard, nsh, only, procs, count int) (reports []
 				reports = append(reports, raceReport{Idx: cur, Procs: procs, Report: block})
 			}
 			i = j
+		case strings.HasPrefix(l, "RES "):
+			var idx int
+			var h string
+			if _, e := fmt.Sscanf(l, "RES %d %s", &idx, &h); e == nil {
+				raceRes.Lock()
+				if raceRes.m[idx] == nil {
+					raceRes.m[idx] = map[int]string{}
+				}
+				if idx == -2 {
+					// the burst runs in every process: key it by shard as well
+					raceRes.m[idx][procs*100+shard] = h
+				} else {
+					raceRes.m[idx][procs] = h
+				}
+				raceRes.Unlock()
+			}
 		case strings.HasPrefix(l, "DIFF "):
 			reports = append(reports, raceReport{Idx: cur, Procs: procs, Report: "same arguments, different results under the real scheduler: " + l[5:], Kind: "result-differs-real-scheduler"})
 		case strings.HasPrefix(l, "HANG"):
@@ -1303,6 +1364,26 @@ func raceLane(tier string, seed uint64) raceSummary {
 		}
 	}
 	wg.Wait()
+	// the same case in processes with other GOMAXPROCS values: the result is a function of the arguments alone
+	raceRes.Lock()
+	for idx, byProc := range raceRes.m {
+		seen := map[string][]int{}
+		for p, h := range byProc {
+			seen[h] = append(seen[h], p)
+		}
+		if len(seen) > 1 {
+			var parts []string
+			for h, ps := range seen {
+				sort.Ints(ps)
+				parts = append(parts, fmt.Sprintf("%s in processes %v", h, ps))
+			}
+			sort.Strings(parts)
+			sum.Reports = append(sum.Reports, raceReport{Idx: idx, Procs: 0, Kind: "result-differs-real-scheduler",
+				Report: "same arguments, different results in processes running at different GOMAXPROCS values (result hashes; for the burst the process key is GOMAXPROCS*100+shard): " + strings.Join(parts, "; ")})
+		}
+	}
+	raceRes.m = map[int]map[int]string{}
+	raceRes.Unlock()
 	sort.Slice(sum.Reports, func(i, j int) bool {
 		if sum.Reports[i].Idx != sum.Reports[j].Idx {
 			return sum.Reports[i].Idx < sum.Reports[j].Idx
